@@ -1,5 +1,5 @@
 """C13 - results are deterministic and independent of call history."""
-from contracts import flow, gfunc, history, inputs  # noqa: F401
+from contracts import ctors, flow, gfunc, history, inputs  # noqa: F401
 from props.common import *  # noqa: F401,F403
 
 SIM = [f"{G}:BaseGHE._simulate_detailed", f"{G}:GHE.simulate#hybrid-body", f"{G}:GHE.simulate#hourly-body-fresh", f"{G}:GHE.simulate#hourly-body-after-another-simulation", f"{G}:GHE.simulate#hourly-body-array-loads"]
@@ -8,7 +8,7 @@ FUNCTIONS = (SIM + [f"{G}:BaseGHE.grab_g_function#body", f"{G}:BaseGHE.compute_g
                     f"{S}:Bisection1D.__init__#search-nocap", f"{S}:Bisection1D.__init__#search-cap", f"{S}:Bisection1D.__init__#nosearch"]
              + [f"{M}:GHEManager.find_design#DesignNearSquare-nocap", f"{M}:GHEManager.find_design#DesignNearSquare-cap",
                 f"{M}:GHEManager.find_design#DesignRectangle-nocap", f"{M}:GHEManager.find_design#DesignRectangle-cap"]
-             + inputs.SETTERS + flow.SET_DESIGN)
+             + inputs.SETTERS + ctors.BOREHOLE + flow.SET_DESIGN)
 NATIVE_FUNCTIONS = [f"{M}:GHEManager.find_design", f"{G}:GHE.simulate", f"{GF}:GFunction.g_function_interpolation"]
 NATIVE_CASES = {"quick": 3, "thorough": 60}
 NATIVE_CASES_BY_FUNCTION = {f"{GF}:GFunction.g_function_interpolation": {"quick": 60, "thorough": 3000}}
@@ -26,7 +26,7 @@ def lemmas():
 
 ASSUMPTIONS = [A_REAL, A_ENGINE, A_DET + " - 'bit-identical' is equality of the A-DET terms: the same library calls on the same arguments",
                A_ORACLE,
-               "set_fluid, set_borehole, set_ground_loads_from_hourly_list, set_geometry_constraints_bi_rectangle_constrained are not under a discharged contract (external base classes / trivial); "
+               "set_fluid and set_geometry_constraints_bi_rectangle_constrained are not under a discharged contract (external base classes); set_borehole is verified down to the ASSUMED contract of pygfunction's Borehole.__init__; "
                "their slot discipline is exercised by the bounded runs",
                "frames are proved for the parameter shapes of the sidecars (manager: all configuration slots; GHE: configuration + result fields); attributes the shapes do not mention are outside the statement"]
 NOT_PROVED = ["the composition 'every sequence of API calls ending in the same configuration gives the same design' is a meta-level induction over the call sequence from the two lemmas and the "
